@@ -13,6 +13,8 @@ Spec: {"kind": "values"|"gradient", "d", "low", "width", "npt", "coef", "pool", 
 kind "values": standard table == f and adaptive table == standard table at every point (values).
 kind "gradient": gradient(axis) of both tables; for linear f it must equal the coefficient; standard and
 adaptive gradients must agree for every f.
+kind "history": "steps" = [{"arr": "fresh"|"same"|"modify", "op": "interp"|"grad", "axis", "idx"?, "cols"?}, ...]: the
+query array lives on between the calls (same object, possibly modified in place) and is passed uncopied.
 """
 from __future__ import annotations
 
@@ -34,7 +36,12 @@ RULE = (
     "sum_m |c_m| prod max|x_i|); gradient(axis) of a linear f equals the coefficient of that axis (1e-10 x scale / h); "
     "the AdaptiveInterpolationTable with the same resolution, queried batch by batch, equals the standard table "
     "(values, and gradients along every axis); any exception raised by either table for a point of the box "
-    "(including the tables' internal AssertionErrors) is a violation. Non-trivial = d >= 2 or >= 3 distinct "
+    "(including the tables' internal AssertionErrors) is a violation. A third of the cases are query histories on one "
+    "standard and one adaptive table: 3..7 interpolate / gradient(axis) calls whose query array is a fresh array, the "
+    "same array object as before (unmodified), or the same object with columns replaced in place by other points of "
+    "the box; after every call the result must match f (values), the coefficient (gradient of linear f) and - for any "
+    "f - a reference table that only sees fresh copies, all evaluated at the content the caller gave the array. "
+    "Non-trivial = d >= 2 or >= 3 distinct "
     "points, f not constant; distinct = hash of spec."
 )
 BUDGET = {"quick": {"cases": 2400, "seconds": 40}, "thorough": {"cases": 80000, "seconds": 1100}}
@@ -54,7 +61,8 @@ ASSUMPTIONS = [
     "the adaptive table is given the function and the resolution (high-low)/(npt-1); its base point is any point of parameter space (the docstring only says 'a point in the underlying grid') or the default None",
 ]
 REQUIRED = {
-    "kind-values": 0.25, "kind-gradient": 0.25, "f-linear": 0.2, "f-multilinear": 0.2,
+    "kind-values": 0.2, "kind-gradient": 0.2, "query-history": 0.15, "same-array-modified-in-place": 0.12,
+    "same-array-unmodified": 0.06, "hist-interp-after-modify": 0.08, "hist-grad-after-modify": 0.04, "f-linear": 0.2, "f-multilinear": 0.2,
     "d1": 0.08, "d2": 0.15, "d3": 0.15, "d4": 0.05,
     "pt-upper-face": 0.2, "pt-lower-face": 0.2, "pt-node": 0.2, "pt-interior": 0.3,
     "multi-batch": 0.3, "repeat-query": 0.15, "box-float": 0.25, "box-dyadic": 0.25,
@@ -134,8 +142,42 @@ def _spec(draw):
             "batches": batches, "abase": abase}
 
 
+@st.composite
+def _history(draw):
+    """One table pair, a sequence of interpolate / gradient calls in which the query array is a fresh array, the
+    same array object as in the previous call, or the same object modified in place (columns replaced by other
+    points of the box)."""
+    s = draw(_spec())
+    npool = len(s["pool"])
+    d = s["d"]
+    steps, cur = [], []
+    for k in range(draw(st.integers(3, 7))):
+        arr = "fresh" if k == 0 else draw(st.sampled_from(["fresh", "same", "modify", "modify", "modify"]))
+        if arr == "modify" and npool == 1:
+            arr = "same"
+        step = {"arr": arr, "op": draw(st.sampled_from(["interp", "interp", "grad"])), "axis": draw(st.integers(0, d - 1))}
+        if arr == "fresh":
+            cur = draw(st.lists(st.integers(0, npool - 1), min_size=1, max_size=5))
+            step["idx"] = list(cur)
+        elif arr == "modify":
+            # replace some (or all) columns of the array by other pool points, in place
+            cols = draw(st.lists(st.integers(0, len(cur) - 1), unique=True, min_size=1, max_size=len(cur)))
+            new = []
+            for c in cols:
+                j = draw(st.integers(0, npool - 2))
+                j = j if j < cur[c] else j + 1  # a point different from the one in that column
+                new.append(j)
+                cur[c] = j
+            step["cols"], step["idx"] = cols, new
+        steps.append(step)
+    s["kind"] = "history"
+    s["steps"] = steps
+    s["batches"] = [st_["idx"] for st_ in steps if "idx" in st_]
+    return s
+
+
 def strategy(tier):
-    return _spec()
+    return st.one_of(_spec(), _spec(), _history())
 
 
 # ----------------------------------------------------------------------------- helpers (pure numpy, no porepy)
@@ -233,6 +275,64 @@ def _known_default_base(s):
 KNOWN = {FINDING_UPPER: _known_upper, FINDING_DEFAULT_BASE: _known_default_base}
 
 
+def _run_history(s, pp, table, adaptive, func, pts, coef, linear, fs, h):
+    """Query history on one standard and one adaptive table with a query array that lives on.  The oracle of every
+    call uses the content the *caller* gave the array (shadow copy kept by the check): the function itself for
+    values, the coefficient for gradients of linear f, and - for every f - a reference table that only ever sees
+    fresh copies (the answer may depend on the content of the array, not on its identity or on earlier calls)."""
+    low, high, npt = _box(s)
+    reference = pp.InterpolationTable(low.copy(), high.copy(), npt.copy(), func)
+    labels = ["query-history"]
+    xq = None       # the caller's array object, passed as it is to both tables
+    shadow = None   # what the caller put into it
+    for n, step in enumerate(s["steps"]):
+        if step["arr"] == "fresh":
+            shadow = pts[:, step["idx"]].copy()
+            xq = shadow.copy()
+        elif step["arr"] == "modify":
+            for c, j in zip(step["cols"], step["idx"]):
+                shadow[:, c] = pts[:, j]
+                xq[:, c] = pts[:, j]  # in place: same object, new content
+            labels.append("same-array-modified-in-place")
+        else:
+            labels.append("same-array-unmodified")
+        where = f"step {n} ({step['arr']}, {step['op']}) of {[(t['arr'], t['op']) for t in s['steps']]}"
+        ncol = shadow.shape[1]
+        if step["op"] == "interp":
+            exact = np.atleast_1d(_f(coef, shadow)) * np.ones(ncol)
+            v = table.interpolate(xq)
+            require(v.shape == (1, ncol), "hist-shape", f"{where}: {v.shape}")
+            require_close(v[0], exact, "hist-interp-exact", rtol=1e-10, atol=0.0, scale=fs,
+                          what=f"{where}: InterpolationTable.interpolate vs f at the current content of the array")
+            va = adaptive.interpolate(xq)
+            require(va.shape == (1, ncol), "hist-shape", f"{where}: {va.shape}")
+            require_close(va[0], exact, "hist-adaptive-exact", rtol=1e-10, atol=0.0, scale=fs,
+                          what=f"{where}: AdaptiveInterpolationTable.interpolate vs f at the current content")
+            if step["arr"] == "modify":
+                labels.append("hist-interp-after-modify")
+        else:
+            ax = step["axis"]
+            gscale = fs / h[ax]
+            ref = reference.gradient(shadow.copy(), ax)
+            g = table.gradient(xq, ax)
+            require(g.shape == (1, ncol), "hist-shape", f"{where}: {g.shape}")
+            ga = adaptive.gradient(xq, ax)
+            require(ga.shape == (1, ncol), "hist-shape", f"{where}: {ga.shape}")
+            if linear:
+                c = coef[1 << ax] * np.ones(ncol)
+                require_close(g[0], c, "hist-grad-linear-exact", rtol=1e-10, atol=0.0, scale=gscale,
+                              what=f"{where}: gradient(axis={ax}) vs coefficient")
+                require_close(ga[0], c, "hist-adaptive-grad-linear-exact", rtol=1e-10, atol=0.0, scale=gscale,
+                              what=f"{where}: adaptive gradient(axis={ax}) vs coefficient")
+            require_close(g[0], ref[0], "hist-grad-depends-on-history", rtol=1e-10, atol=0.0, scale=gscale,
+                          what=f"{where}: gradient(axis={ax}) differs from a table that sees a fresh copy of the same points")
+            require_close(ga[0], ref[0], "hist-adaptive-grad-depends-on-history", rtol=1e-10, atol=0.0, scale=gscale,
+                          what=f"{where}: adaptive gradient(axis={ax}) differs from a fresh standard table at the same points")
+            if step["arr"] == "modify":
+                labels.append("hist-grad-after-modify")
+    return sorted(set(labels))
+
+
 # ----------------------------------------------------------------------------- check
 def check(s):
     import porepy as pp
@@ -293,6 +393,10 @@ def check(s):
             labels.append("repeat-query")
             break
         seen.update(b)
+
+    if s["kind"] == "history":
+        labels += _run_history(s, pp, table, adaptive, func, pts, coef, linear, fs, h)
+        return {"labels": labels, "nontrivial": True}
 
     for bi, b in enumerate(s["batches"]):
         x = pts[:, b]
